@@ -34,9 +34,9 @@ def toRFeature (f : Feature) : GbLayout.RFeature :=
 /-- the abstract record a `Sequence` states (C01's spec type) -/
 def toRec (x : Sequence) : GbLayout.GbRec :=
   let m := x.metadata
-  { locus := { name := m.locus.name, mol := molOf m.locus.moleculeType,
-               topo := if m.locus.circular then .circular else .linear,
-               division := GbLayout.divisionCodes.idxOf m.locus.genbankDivision, date := m.locus.modificationDate },
+  { locus := { name := m.locus.name, len := m.locus.sequenceLength, mol := m.locus.moleculeType,
+               topo := if m.locus.circular then some .circular else some .linear,
+               division := m.locus.genbankDivision, date := m.locus.modificationDate },
     definition := m.definition, accession := m.accession, version := m.version, keywords := m.keywords,
     source := m.source, organism := m.organism,
     refs := m.references.map toRRef,
@@ -75,6 +75,8 @@ def covered (x : Sequence) : Bool :=
     && l.circular != l.linear
     && GbLayout.divisionCodes.getD (GbLayout.divisionCodes.idxOf l.genbankDivision) [] == l.genbankDivision
     && l.sequenceLength == Str.ofNat x.sequence.length
+    -- (w-gbparse, C01 widening: C01's `wfLocus` now admits absent fields; the two conjuncts keep `covered` what it was)
+    && l.genbankDivision != [] && l.modificationDate != []
     && refsFit 0 x.metadata.references
     && GbLayout.wf (toRec x)
 
